@@ -91,21 +91,21 @@ type Defect struct {
 
 // ReqSpec describes one AP-REQ to mint (all of it comes from the tape).
 type ReqSpec struct {
-	Client    string `json:"client"`
-	CRealm    string `json:"crealm,omitempty"`
-	Svc       string `json:"svc"`   // principal the ticket is really issued for
-	Realm     string `json:"realm"` // its realm
-	Kvno      int    `json:"kvno"`
-	Etype     int    `json:"etype"`
-	KvnoField bool   `json:"kvno_field"`
-	StartTime bool   `json:"starttime"`
-	Addrs     string `json:"addrs,omitempty"` // "" | match | other | both
-	Subkey    bool   `json:"subkey,omitempty"`
-	Seq       bool   `json:"seq,omitempty"`
-	Cksum     bool   `json:"cksum,omitempty"`
-	NameType  int32  `json:"auth_name_type,omitempty"` // name-type used in the authenticator (not significant)
-	LifeS     int64  `json:"life_s,omitempty"`
-	PAC       string `json:"pac,omitempty"` // "" | valid | badsig | wrongkey
+	Client    string   `json:"client"`
+	CRealm    string   `json:"crealm,omitempty"`
+	Svc       string   `json:"svc"`   // principal the ticket is really issued for
+	Realm     string   `json:"realm"` // its realm
+	Kvno      int      `json:"kvno"`
+	Etype     int      `json:"etype"`
+	KvnoField bool     `json:"kvno_field"`
+	StartTime bool     `json:"starttime"`
+	Addrs     string   `json:"addrs,omitempty"` // "" | match | other | both
+	Subkey    bool     `json:"subkey,omitempty"`
+	Seq       bool     `json:"seq,omitempty"`
+	Cksum     bool     `json:"cksum,omitempty"`
+	NameType  int32    `json:"auth_name_type,omitempty"` // name-type used in the authenticator (not significant)
+	LifeS     int64    `json:"life_s,omitempty"`
+	PAC       string   `json:"pac,omitempty"` // "" | valid | badsig | wrongkey
 	Defects   []Defect `json:"defects,omitempty"`
 }
 
@@ -200,7 +200,7 @@ func (m *Minter) Mint(spec ReqSpec, s time.Time, skew time.Duration, r *core.Rng
 	start := s.Add(-10 * time.Minute)
 	end := s.Add(time.Duration(spec.LifeS) * time.Second)
 	ct := s.Add(-time.Duration(200+m.Serial) * time.Microsecond) // unique per mint, well inside any skew
-	if d := hasDefect(ds, "t-end"); d != nil { // presentation at end+skew+Arg
+	if d := hasDefect(ds, "t-end"); d != nil {                   // presentation at end+skew+Arg
 		end = s.Add(-skew)
 		if !end.After(start) {
 			start = end.Add(-time.Hour)
@@ -409,9 +409,9 @@ func (s ServiceSettings) Skew() time.Duration {
 
 // Verdict of the reference model.
 type Verdict struct {
-	Accept  string   // accept | reject | either
-	Reasons []string // why reject / why either
-	ReplayKey string
+	Accept              string   // accept | reject | either
+	Reasons             []string // why reject / why either
+	ReplayKey           string
 	PassedToReplayCheck bool // conditions up to the replay check held (the identity is then remembered)
 }
 
